@@ -309,6 +309,25 @@ def c03_family(tier, n):
     for b1, b2 in [('pass', 'pass'), ('slow30', 'pass'), ('slow150', 'skip1'), ('skip1', 'slow30')]:
         out.append(timely(scn(f'tee/{b1}/{b2}', [src(n, required='a,b'), sink('a', ['src'], b1), sink('b', ['src;main>x'], b2)])))
 
+    # ... whose subscriptions come up later than their request paths (start-up handshake per consumer, not per endpoint)
+    for jd in [{'b<src': 300}, {'a<src': 150, 'b<src': 450}, {'b<src': 300, 'start_b': 120}]:
+        fs = [src(n, required='a,b'), sink('a', ['src']), sink('b', ['src;main>x'])]
+
+        if (st := jd.get('start_b')):
+            fs[2]['start_at'] = st
+
+        out.append(timely(scn(f'tee-join/{sorted(jd.items())}', fs, join_delay={k: v for k, v in jd.items() if '<' in k})))
+
+    # frame logging switched on (mq_log) in the filter that returns a deferred result, with a consumer that makes the send wait
+    for mq in ['all', 'pretty']:
+        fs = chain(n, [[('callable',)], 'slow150'])
+        fs[1].setdefault('config', {})['mq_log'] = mq
+        out.append(timely(scn(f'chain3-mqlog-{mq}/callable/slow150', fs)))
+
+        fs = chain(n, ['slow150'], src_ops=[('callable',)])
+        fs[0].setdefault('config', {})['mq_log'] = mq
+        out.append(timely(scn(f'chain2-mqlog-{mq}/callable-src/slow150', fs)))
+
     # required outputs whose ids are prefixes of one another, connecting in either order (outputs_required must match whole ids)
     for late in ['det', 'det2']:
         fs = [src(n, required='det,det2'), sink('det', ['src']), sink('det2', ['src;main>x'])]
@@ -410,6 +429,15 @@ def c02_content_family(tier):
                 {**sink('snk', [sub]), 'log_content': True, 'annotate': True}]))
             out.append(s)
 
+    # publishers that are told how to send images (outputs_jpg False: raw, exactly; None: as they are), frames that hold raw pixels AND
+    # a cached JPEG of them (a filter that looked at frame.jpg, e.g. to store a thumbnail), encoded and raw images in one set
+    for oj in [False, None]:
+        for ts in [['main'], ['main', 'a'], ['a', 'main', '_h']]:
+            kinds = ['rojpg', 'bgr', 'gray'] if oj is False else ['jpg', 'bgr', 'gray', 'rgb']      # (an encoded frame sent raw is a decode: not compared byte for byte here)
+            out.append(timely(scn(f'content-outputs_jpg-{oj}/{"+".join(ts)}', [
+                {**src(n, required='snk', topics=ts), 'payload': {'kinds': kinds}, 'config': {'outputs_jpg': oj}},
+                {**sink('snk', ['src;*']), 'log_content': True, 'annotate': True}])))
+
     # a camera-style source that overwrites one image buffer per topic for every frame, consumers of different speeds
     for ts in [['main'], ['main', 'a']]:
         for slow in [0, 30, 150]:
@@ -487,6 +515,18 @@ def c04_family(tier):
         fs[1]['ops'] = stall(k, S)
         fs.append(sink('log0', ['spl;main>logged']))
         out.append(timely(scn(f'balanced-shared-branch/k{k}/S{S}', fs), quiet=S + 800, horizon=S + 1500))
+
+    # a publisher with two bound output endpoints (no balancing): a synchronized consumer on each, one of them stalls
+    for k in [2]:
+        S  = 1500
+        fs = [{**src(N, required='snk,other', period=20), 'outputs': 2}, sink('snk', ['src'], stall(k, S)), sink('other', ['src.1;main>x'])]
+        out.append(timely(scn(f'two-endpoints/k{k}/S{S}', fs), quiet=S + 800, horizon=S + 1500))
+
+    # the stalled consumer sits behind a relay that wakes up when idle (sources_timeout) - which must not turn into a send time-out
+    for k in [2]:
+        S  = 1500
+        fs = [src(N, required='mid', period=20), {**relay('mid', ['src'], required='snk'), 'config': {'sources_timeout': 300}}, sink('snk', ['mid'], stall(k, S))]
+        out.append(timely(scn(f'relay-sources-timeout/k{k}/S{S}', fs), quiet=S + 800, horizon=S + 1500))
 
     # no stall at all: a consumer that joins a fast and a very slow independent source takes nothing while it waits for the slow one -
     # the fast source must not run ahead meanwhile (the waiting consumer repeats its request every poll interval)
@@ -578,6 +618,22 @@ def c05_family(tier, n):
             out[-1]['timing_only'] = True      # (which of s2's frames q gets depends on when the join asks it to jump: no functional reference;
                                                #  judged by the with / without listener differential and, in the schedule exploration, by set integrity and order)
 
+    # a listener that leaves properly in mid-stream (exit -> CLOSE) while the publisher goes on serving its synchronized consumer
+    for m in ['?', '??']:
+        for k in [1, 3]:
+            fs = base(40) + [{**sink('lis0', [f'src{m}']), 'faults': [{'at': 'process', 'k': k, 'what': 'exit'}]}]
+
+            for f in fs:
+                f['run'] = {'prop_exit': 'none', 'obey_exit': 'none'}
+
+            out.append(timely(scn(f'listen-leaves/{m}/k{k}', fs), quiet=700))
+
+    # a listener that is named in outputs_required (it has to be connected before anything is sent - it still never holds anything up)
+    for m in ['?']:      # (a '??' listener never sends a request, so it can never count as connected: not a valid required output)
+        for lb in ['slow250', 'stall']:
+            fs = [src(n, required='snk,lis0', period=40), sink('snk', ['src']), sink('lis0', [f'src{m}'], lis_behs[lb])]
+            out.append(timely(scn(f'listen-required/{m}/{lb}', fs), quiet=700))
+
     # killed listener (hard kill at every step of the reference run)
     for m in ['?', '??']:
         fs = base(40) + [sink('lis0', [f'src{m}'])]
@@ -620,6 +676,16 @@ def c07_family(tier, n):
 
     for speeds in [(0, 0, 0, 0), (40, 40, 40, 130)]:
         out.append(scn(f'bal4/{speeds}', balance(n, speeds)))
+
+    # the joiner has an output of its own and forwards only some frames: it skips others by returning None, or by a deferred result
+    # that turns out to be None when it is sent (its receiver is coupled with its sender's state in between)
+    for speeds in [(0, 130), (130, 0), (40, 130)]:
+        for how, ops in [('skip-odd', [('skip', list(range(1, n + 6, 2)))]), ('skip-3rd', [('skip', list(range(2, n + 6, 3)))]),
+                         ('deferred-none-odd', [('callable_none_at', list(range(1, n + 6, 2)))]), ('deferred-none-3rd', [('callable_none_at', list(range(2, n + 6, 3)))])]:
+            fs = balance(n + 4, speeds)
+            fs[-1] = {**relay('join', [f'w{i}' for i in range(len(speeds))], ops), 'config': {'sources_balance': True}}
+            fs.append(sink('end', ['join']))
+            out.append(scn(f'bal2-join-out/{speeds}/{how}', fs))
 
     out.append(scn('bal2/fast-splitter', balance(n, (40, 130), split_period=0)))
     out.append(scn('bal2/slow-splitter', balance(n, (0, 40), split_period=40)))
@@ -773,6 +839,14 @@ def c06_family(tier):
 
     nofault('nofault-chain3/skip-slow', [src(N, period=period), relay('mid', ['src'], every3), sink('snk', ['mid'], [('slow', 150)])])
 
+    # the source and the relay behind it die in the same instant, late in the run, and come back together (the machine they share
+    # reboots); the surviving sink is far ahead of their counters: the restarted relay must pass the id it is asked for on upstream
+    fs = [src(N, period=20), relay('mid', ['src']), sink('snk', ['mid'], [('slow', 30)])]
+    mk('chain3-late-group/src+mid', fs, [], [300])
+    out[-1]['faults']['groups'] = [['src', 'mid']]
+    out[-1]['horizon_ms'] = 4040
+    out[-1]['faults']['from_ms'] = 4000
+
     # graceful stop (stop event: shutdown runs, CLOSE is sent, sockets are closed) and restart under the same id
     for v in ['src', 'mid', 'snk']:
         mk(f'chain3-graceful/{v}', ch(False), [v], [300, C06_CT + 200], kinds=('graceful',))
@@ -867,6 +941,11 @@ def c08_endings(victim_kind):
     if victim_kind != 'source':    # has sources
         e['raise-recv'] = ({}, {'inject': 'VICTIM@170'}, 'error')
 
+    if victim_kind == 'sink':      # a terminal filter with a dedicated metrics endpoint (the documented way to watch a sink): one more sender to tear down
+        e['exit-process2-metrics-out'] = ({'faults': [{'at': 'process', 'k': 2, 'what': 'exit'}], 'config': {'outputs_metrics': 'ipc://VICTIM.met'}}, {}, 'clean')
+        e['raise-process2-metrics-out'] = ({'faults': [{'at': 'process', 'k': 2, 'what': 'raise'}], 'config': {'outputs_metrics': 'ipc://VICTIM.met'}}, {}, 'error')
+        e['stop-evt-metrics-out'] = ({'config': {'outputs_metrics': 'ipc://VICTIM.met'}}, {'stop_at': 'VICTIM@170'}, 'clean')
+
     return e
 
 
@@ -905,7 +984,7 @@ def c08_family(tier):
                                 elif k == 'sources_raw':
                                     f.setdefault('config', {})['sources'] = v
                                 elif k == 'config':
-                                    f.setdefault('config', {}).update(v)
+                                    f.setdefault('config', {}).update({a: (b.replace('VICTIM', victim) if isinstance(b, str) else b) for a, b in v.items()})
                                 else:
                                     f[k] = v
 
@@ -931,6 +1010,22 @@ def c08_family(tier):
                             s[k] = v
 
                     out.append(s)
+
+    # a consumer that announces its exit after the publisher has stopped tracking it: a '?' (or synchronized, not required) consumer that
+    # spends longer than the connection time-out inside one process() call - another consumer keeps the publisher's sweep going - and
+    # then fails / leaves; the announcement must still be obeyed
+    for m in ['?', '']:
+        for what, kind in [('raise', 'error'), ('exit', 'clean')]:
+            for prop, obey in [('all', 'all'), ('error', 'all'), ('clean', 'clean')]:
+                fs = [src(2000, period=40), sink('a', ['src']),
+                      {**sink('late', [f'src{m};main>x'], [('stall_from', 1, 1400)]), 'faults': [{'at': 'process', 'k': 2, 'what': what}]}]
+
+                for f in fs:
+                    f['run'] = {'prop_exit': prop, 'obey_exit': obey}
+
+                s = scn(f'tee-untracked{m or "-sync"}/late/{what}-process2/{prop}-{obey}', fs, profile='TIMELY', timely_ms=20, quiet_ms=10**9, horizon_ms=2600, conn_timeout=1000)
+                s['c08'] = {'victim': 'late', 'ending': f'{what}-process2-untracked', 'kind': kind, 'prop': prop, 'obey': obey}
+                out.append(s)
 
     return out
 
